@@ -204,16 +204,24 @@ def run(chk):
                 problems.append("message %s is not key[i]*h*weight" % sym.show(mess))
             row3 = en["args"][0]
             hl = en["loops"][2]
-            rb_, ro_ = sym.ptr_split(row3)
-            if rb_[0] == "fld" and rb_[2] == "ks0_raw":
-                # the row reached through the raw array: ks[i][j] = ks0_raw + (i*t + j)*base (the constructor's tables, R5), so
-                # &ks0_raw[(i*t + j)*base + h] is &ks[i][j][h]
+            def via_raw(ptr, vi, vj):
+                """a row reached through the raw array: ks[i][j] = ks0_raw + (i*t + j)*base (the constructor's tables, R5), so
+                &ks0_raw[(i*t + j)*base + r] is &ks[i][j][r] when r does not depend on i and j"""
+                rb_, ro_ = sym.ptr_split(ptr)
+                if not (rb_[0] == "fld" and rb_[2] == "ks0_raw"):
+                    return ptr
                 K_ = rb_[1]
                 t_f, b_f, bb_f = sym.fld(K_, "t"), sym.fld(K_, "base"), sym.fld(K_, "basebit")
                 ro2 = sym.rewrite(sym.trip_counts_nonneg(ro_), {("op", "<<", I(1), bb_f): b_f})
-                want_off = sym.add(sym.mul(sym.add(sym.mul(gi, t_f), gj), b_f), gh)
-                if ro2 == want_off:
-                    row3 = sym.addr(sym.idx(sym.idx(sym.idx(sym.fld(K_, "ks"), gi), gj), gh))
+                r_ = sym.sub(ro2, sym.mul(sym.add(sym.mul(vi, t_f), vj), b_f))
+                if sym.contains(r_, vi) or sym.contains(r_, vj):
+                    return ptr
+                return sym.addr(sym.idx(sym.idx(sym.idx(sym.fld(K_, "ks"), vi), vj), r_))
+            row3 = via_raw(row3, gi, gj)
+            for z in zero_rows:
+                if len(z["loops"]) >= 2 and not z.get("_canon"):
+                    z["args"] = [via_raw(z["args"][0], z["loops"][0]["var"], z["loops"][1]["var"])] + list(z["args"][1:])
+                    z["_canon"] = True
             if not (row3[0] == "addr" and row3[1][0] == "idx" and row3[1][2] == gh and row3[1][1][0] == "idx" and row3[1][1][2] == gj
                     and row3[1][1][1][0] == "idx" and row3[1][1][1][2] == gi):
                 # a row reached some other way (a pointer walking ks0_raw whose progress is not in closed form, ...): the rule
